@@ -98,9 +98,11 @@ class CallMixin(ExprMixin):
             if n in C.SPECFNS:
                 args = [self.ev1(a, st)[1] for a in e.args]
                 return [(st, C.SPECFNS[n](self, st, *args))]
-        # pattern "callee" matches any call of it, "callee/N" only calls with N positional arguments
+        # pattern "callee" matches any call of it, "callee/N" only calls with N positional arguments,
+        # "callee#K" only the K-th call of it in the function's source text (0-based)
         hooks_b = [h for h in self.c.hooks if h[0] == "before" and
-                   (_match(h[1], ftext) or _match(h[1], "%s/%d" % (ftext, len(e.args))))] if not self.spec else []
+                   (_match(h[1], ftext) or _match(h[1], "%s/%d" % (ftext, len(e.args)))
+                    or ("#" in h[1] and _match(h[1], "%s#%d" % (ftext, self.call_occurrence(e, ftext)))))] if not self.spec else []
         res = []
         for s, f in self.ev(e.func, st):
             argexprs = list(e.args)
@@ -128,6 +130,21 @@ class CallMixin(ExprMixin):
                 for s, _ in res:
                     self.run_hook(s, h, e)
         return res
+
+    def call_occurrence(self, node, ftext):
+        """index of this call among the calls with the same callee text, in source order of the function under contract"""
+        tab = getattr(self, "_call_occ", None)
+        if tab is None:
+            tab = self._call_occ = {}
+            seen = {}
+            root = getattr(self, "fnode", None)
+            calls = [n for n in ast.walk(root) if isinstance(n, ast.Call)] if root is not None else []
+            calls.sort(key=lambda n: (n.lineno, n.col_offset))
+            for n in calls:
+                t = ast.unparse(n.func)
+                tab[id(n)] = seen.get(t, 0)
+                seen[t] = seen.get(t, 0) + 1
+        return tab.get(id(node), -1)
 
     def run_hook(self, st, h, node, extra=None):
         for act in h[2]:
